@@ -221,6 +221,12 @@ class Gen:
         fn_ok = not nofn and (self.feat.get("fn_under_diagonal", True) or not diagonal)
         if x < 0.66 and fn_ok:
             return "%s(%s)" % (r.choice(["f", "f", "g"]), self.lit(pool))
+        if x < 0.69 and fn_ok:
+            # a scope function with two arguments, the second one a series literal: m("A", "C"), m(expr, "C"), m(2, "C")
+            r2 = r.random()
+            arg = self.lit(pool) if r2 < 0.5 or depth >= 2 else (str(r.choice([2, 3])) if r2 < 0.65 else
+                                                                  self.expr(idx, depth + 1, diagonal, nofn=not self.feat.get("nested_calls", True)))
+            return "m(%s, %s)" % (arg, self.lit(pool))
         if x < 0.72 and fn_ok:
             # a scope function with a numeric literal next to the series / expression argument
             arg = self.lit(pool) if r.random() < 0.5 or depth >= 2 else self.expr(idx, depth + 1, diagonal, nofn=not self.feat.get("nested_calls", True))
@@ -580,11 +586,23 @@ class Prop:
                         return aslinop(out) if d_ is not v else out
                     return T.fun("g", v)
 
-                def h(x, k, index):
+                def h(x, k, index, f=f):
                     v = f(x, index)
                     return zero if v is zero else v * int(k)
 
-                scope = {"f": f, "g": g, "h": h, "flag": flag, "flags": list(case["flags"])}
+                def m(x, y, index, f=f, g=g):
+                    # the second argument is always a series: its transposed element enters like in g
+                    a = zero if isinstance(x, (int, float)) else f(x, index)
+                    b = g(y, index)
+                    if isinstance(x, (int, float)) and b is not zero:
+                        b = b * int(x)
+                    if a is zero:
+                        return b
+                    if b is zero:
+                        return a
+                    return refdsl.Ref._add(a, b)
+
+                scope = {"f": f, "g": g, "h": h, "m": m, "flag": flag, "flags": list(case["flags"])}
                 specs = case["inputs"]
                 if floats and case.get("linop_mask"):
                     # linear-operator mode for some blocks (what the implicit method uses), with a caller-supplied product
@@ -779,9 +797,9 @@ class Prop:
                 data = got.data.ravel()
                 bad = None
                 for k, (c, w) in enumerate(zip(cells, wants)):
-                    g = zero if mask[k] else data[k]
-                    if not same(norm(g), norm(w), stats):
-                        bad = (c, g, w)
+                    cell_value = zero if mask[k] else data[k]
+                    if not same(norm(cell_value), norm(w), stats):
+                        bad = (c, cell_value, w)
                         break
                 if bad:
                     fail("value-mismatch", f"{desc}: cell {bad[0]}: compiled = {self._show(bad[1])}, reference = {self._show(bad[2])}",
